@@ -182,6 +182,13 @@ var baseAssumptions = []string{
 // Finish prints the verdict, writes evidence and returns the exit code.
 // applyFloors turns a rule that matched fewer instances than confirmed by hand into a violation.
 func (r *Report) applyFloors() {
+	// a rule set that gave up on an anchor has said so (UNDECIDED); the floors of the rules it
+	// could not run would only repeat that as violations
+	for _, o := range r.Obs {
+		if o.st == Undecided && strings.HasSuffix(o.Rule, ".anchor") {
+			return
+		}
+	}
 	for rule, min := range r.MinInstances {
 		if n := r.Count(rule); n < min {
 			r.Bad(rule, "instance-floor", "-", fmt.Sprintf("rule matched %d instances, fewer than the %d confirmed by hand on the pinned tree: anchors drifted or the mechanism was removed", n, min))
